@@ -116,6 +116,9 @@ type G2LConfig struct {
 
 	NonNilElems []string // slice types ("[]*T") assumed to hold no nil: List T, elements as pointees (go2lean_ptr.go)
 	Maps        bool     // read-only maps as association lists (go2lean_map.go)
+
+	Codec    bool              // named results, `*p = v` on in-out parameters, []byte ↔ string, %0*d (go2lean_codec.go)
+	OutPrims map[string]string // call key → template of a primitive that writes through its last argument (go2lean_codec.go)
 }
 
 var g2lBasicDefault = map[string]string{
